@@ -90,11 +90,16 @@ structure Ident where
   pkgLevel : Bool := true
   deriving DecidableEq, Repr
 
-/-- one initialisation expression; it logs `label` when evaluated -/
+/-- one initialisation expression; it logs `label` when evaluated. `label = ""`: the expression is
+    a function literal (`var get = func() int { return x }`): evaluating it runs nothing and logs
+    nothing; `ids` are then the identifiers of the literal's body. -/
 structure Init where
   label : String
   ids : List Ident
   deriving DecidableEq, Repr
+
+/-- the initialisation expression is a function literal -/
+def Init.funcLit (i : Init) : Bool := i.label == ""
 
 /-- one variable specification of the source (a child of a `varDecl` node as written).
     `inits.length = 0`: `var z T`; `= 1` with several names: `var a, b = f()` (`multi`);
@@ -121,7 +126,11 @@ def VarSpec.multi (v : VarSpec) : Bool := v.names.length ≥ 2 && v.inits.length
 def VarSpec.paired (v : VarSpec) : Bool := v.names.length ≥ 2 && v.inits.length == v.names.length
 
 def VarSpec.ids (v : VarSpec) : List Ident := v.inits.flatMap (·.ids)
-def VarSpec.labels (v : VarSpec) : List String := v.inits.map (·.label)
+def VarSpec.labels (v : VarSpec) : List String := (v.inits.map (·.label)).filter (· != "")
+
+/-- `n.kind == defineStmt && n.lastChild().kind == funcLit`: one name, one value, a function literal -/
+def VarSpec.funcLitInit (v : VarSpec) : Bool :=
+  v.names.length == 1 && (match v.inits with | [i] => i.funcLit | _ => false)
 
 /-- a function or method (methods are named `T.m`, `meth = true`) with the identifiers of its
     body in the order in which a walk of the declaration meets them -/
@@ -154,6 +163,16 @@ inductive Resolve where
   | other (text : String)
   deriving DecidableEq, Repr
 
+/-- which specifications the loop `for _, n := range nodes { deps[n] = getVarDependencies(n, sc) }`
+    of `genGlobalVarDecl` leaves without dependencies -/
+inductive CollectSkip where
+  /-- none: the body of the loop is the assignment alone -/
+  | none
+  /-- `if n.kind == defineStmt && n.lastChild().kind == funcLit { continue }` before it -/
+  | funcLit
+  | other (text : String)
+  deriving DecidableEq, Repr
+
 /-- Facts read from `getVarDependencies` (interp/cfg.go), from the `defineXStmt` case of `gta`
     (interp/gta.go) and from the `token.VAR` case of `ast` (interp/ast.go), regenerated by the
     extractor. Each is a decision one of the repairs of round 3 introduced; the record of the code
@@ -173,6 +192,8 @@ structure DepFacts where
   multiRetry : Bool
   /-- `ast`, `case token.VAR` under a `fileStmt`: `a.Specs = splitVarSpecs(a.Specs)` (F15-3) -/
   splitPaired : Bool
+  /-- `genGlobalVarDecl`: the specifications for which `getVarDependencies` is not called -/
+  collectSkip : CollectSkip
   deriving DecidableEq, Repr
 
 /-- `splitVarSpecs` (interp/ast.go) on one specification: `a, b = x, y` becomes `a = x`, `b = y`;
@@ -280,9 +301,16 @@ def collectSpec (d : DepFacts) (vars : List VarSpec) (funcs : List Func) (self :
     | some k => if d.skipSelf && k == self then none else some k
     | none => none)
 
+/-- the loop of `genGlobalVarDecl` skips this specification (`deps[n]` stays empty) -/
+def skipped (d : DepFacts) (v : VarSpec) : Bool :=
+  match d.collectSkip with
+  | .funcLit => v.funcLitInit
+  | _ => false
+
 def collectAux (d : DepFacts) (vars : List VarSpec) (funcs : List Func) : Nat → List VarSpec → Deps
   | _, [] => []
-  | i, v :: vs => collectSpec d vars funcs i v :: collectAux d vars funcs (i + 1) vs
+  | i, v :: vs =>
+    (if skipped d v then [] else collectSpec d vars funcs i v) :: collectAux d vars funcs (i + 1) vs
 
 /-- `deps[n] = getVarDependencies(n, sc)` for every specification of the list `getVars` built -/
 def collectDepsY (d : DepFacts) (p : Pkg) : Deps :=
